@@ -242,6 +242,11 @@ class Property:
     def model_postprocess(self, case, out):
         return out
 
+    def compare_view(self, case, impl_out):
+        """the part of the implementation transcript that is compared with the model transcript
+        (a property may append judge-only trace lines after a marker)"""
+        return impl_out
+
 
 class _Timeout(Exception):
     pass
@@ -364,7 +369,7 @@ def evaluate(prop, drv, cases, variants=None):
             o = prop.model_postprocess(cases[i], o)
             if res[i]["model"] is None:
                 res[i]["model"] = o
-            if o == res[i]["impl"]:
+            if o == prop.compare_view(cases[i], res[i]["impl"]):
                 res[i]["agree"], res[i]["variant"], res[i]["model"] = True, v, o
             else:
                 still.append(i)
@@ -560,7 +565,7 @@ def run_property(prop, tier="quick", seed=0, n_cases=None, replay=None):
 
         case = shrink_case(prop, drv, r["case"], still_dis)
         rr = evaluate(prop, drv, [case])[0]
-        fd = first_diff(rr["impl"], rr["model"] or [])
+        fd = first_diff(prop.compare_view(case, rr["impl"]), rr["model"] or [])
         p = write_replay(prop, "correspondence", dict(
             property=prop.id, kind="correspondence-broken", case=case,
             correspondence=f"hv/props/{prop.id.lower()}.py family={case.get('family')} vs Lean driver {prop.driver}",
@@ -609,7 +614,7 @@ def replay_file(prop, drv, path, findings):
     obj = json.loads(Path(path).read_text())
     case = obj["case"] if "case" in obj else obj
     rr = evaluate(prop, drv, [case])[0]
-    print(json.dumps(dict(agree=rr["agree"], judge=rr["judge"], first_difference=first_diff(rr["impl"], rr["model"] or [])), indent=1))
+    print(json.dumps(dict(agree=rr["agree"], judge=rr["judge"], first_difference=first_diff(prop.compare_view(case, rr["impl"]), rr["model"] or [])), indent=1))
     if rr["judge"] is not None and not sig_known(rr["judge"], findings):
         print(f"VIOLATION property={prop.id} replay={path}")
         return 1
